@@ -1229,6 +1229,61 @@ def run_label_history(ctor, adds):
     return out, counts
 
 
+# the same rule through the operation's addressing calls: an edge of the block collects the surfaces of every project_edge
+# naming it and of every project_side(..., edges=True) of a side it belongs to; the call that would give some edge a third
+# surface is refused (blockMesh knows projections to one or two surfaces only)
+OP_SIDES = {"bottom": (0, 1, 2, 3), "top": (4, 5, 6, 7), "left": (4, 0, 3, 7), "right": (5, 1, 2, 6), "front": (4, 5, 1, 0),
+            "back": (7, 6, 2, 3)}
+OP_EDGES = [(0, 1), (1, 2), (2, 3), (3, 0), (4, 5), (5, 6), (6, 7), (7, 4), (0, 4), (1, 5), (2, 6), (3, 7)]
+
+
+def gen_op_label_history(rng):
+    calls = []
+    for _ in range(rng.randint(2, 5)):
+        if rng.random() < 0.5:
+            a, b = rng.choice(OP_EDGES)
+            if rng.random() < 0.5:
+                a, b = b, a
+            calls.append(["edge", a, b, rng.sample(["ga", "gb", "gc"], rng.choice([1, 1, 2]))])
+        else:
+            calls.append(["side", rng.choice(sorted(OP_SIDES)), rng.choice(["ga", "gb", "gc"])])
+    return calls
+
+
+def run_op_label_history(calls):
+    import classy_blocks as cb
+    op = cb.Box([0.0, 0.0, 0.0], [1.0, 1.25, 1.5])
+    out = []
+    for c in calls:
+        if c[0] == "edge":
+            r = attempt(lambda: op.project_edge(c[1], c[2], list(c[3]) if len(c[3]) > 1 else c[3][0]))
+        else:
+            r = attempt(lambda: op.project_side(c[1], c[2], edges=True))
+        out.append(r[0] == "ok")
+        if r[0] != "ok":
+            break
+    return out
+
+
+def oracle_op_label_history(calls, obs):
+    have = {frozenset(e): set() for e in OP_EDGES}
+    for c, o in zip(calls, obs):
+        if c[0] == "edge":
+            touched = {frozenset((c[1], c[2])): set(c[3])}
+        else:
+            q = OP_SIDES[c[1]]
+            touched = {frozenset((q[i], q[(i + 1) % 4])): {c[2]} for i in range(4)}
+        over = [sorted(e) for e, new in touched.items() if len(have[e] | new) > 2]
+        if bool(over) == o:
+            return "call %r %s although edge(s) %s would then be projected to %s surfaces" % (
+                c, "accepted" if o else "rejected", over or "none", "more than two" if over else "at most two")
+        if not o:
+            return None
+        for e, new in touched.items():
+            have[e] |= new
+    return None
+
+
 def oracle_label_history(ctor, adds, obs):
     have = list(ctor)
     if (1 <= len(have) <= 2) != obs[0]:
@@ -1515,6 +1570,16 @@ class C20(Prop):
             if bad:
                 res.oracle_failures.append(dict(kind="label_history", guard="project_labels", ctor=ctor, adds=adds, observed=obs, why=bad, region="history"))
 
+        for _ in range(nh):
+            calls = gen_op_label_history(ctx.rng)
+            obs = run_op_label_history(calls)
+            res.evaluations += 1
+            res.count("history=operation-labels")
+            res.distinct.add("oplabels:" + json.dumps(calls))
+            bad = oracle_op_label_history(calls, obs)
+            if bad:
+                res.oracle_failures.append(dict(kind="op_label_history", guard="project_labels", calls=calls, observed=obs, why=bad, region="history"))
+
         def bl(l):
             return "[" + "; ".join(blit(x) for x in l) + "]"
 
@@ -1597,6 +1662,10 @@ class C20(Prop):
             obs, model = run_grid_history(obj["calls"])
             print("implementation:", obs)
             print("oracle:", oracle_grid_history(model, obs) or "ok")
+        elif k == "op_label_history":
+            obs = run_op_label_history(obj["calls"])
+            print("implementation: calls accepted:", obs)
+            print("oracle:", oracle_op_label_history(obj["calls"], obs) or "ok")
         elif k == "label_history":
             obs, _c = run_label_history(obj["ctor"], obj["adds"])
             print("implementation:", obs)
